@@ -5,7 +5,18 @@
     [extraction_canonical_perf_w]  extraction of un-nested inputs gives wide-canonical lists;
     [roundtrip_extracted_perf_w]   corollary;
     [perf_nested_refuted]          nested same-pitch notes break both.
-    Helpers live in [Module PW]; reuses [PC] of Proofs/RenderPerfCanon.v. *)
+    Helpers live in [Module PW]; reuses [PC] of Proofs/RenderPerfCanon.v.
+
+    round trip: every decoded note gets a rank = the index of its NOTE_ON ([dec4], [Tm4]; the rank
+    travels in the spare field [n_rest], which the extractor ignores: [pfq_map]).  The open list
+    is kept in NOTE_ON order ([Inv]: ranks increase, (start, pitch) keys do not decrease), so the
+    FIFO pairing closes notes of equal key in rank order; hence in the decoded list (creation order)
+    the (start, pitch) order with ties in list order is the rank order ([dec4_pairs]) and the STABLE
+    [isort pf_le] sorts by rank ([isort_stable]).  The timed reading [Tm4] is strictly sorted by
+    (step, rank) and a permutation of the encoder's tuples, which are sorted by the same order
+    non-strictly: equal ([PC.sorted_perm_unique]); the loop maps it back to the list ([Tm4_loop]).
+    extraction: [stageW] = PC.stageC with the open list possibly holding a pitch twice: the oldest
+    open entry of the pitch has the same (start, pitch) key as the note being closed (no nesting). *)
 From Coq Require Import ZArith List Bool Lia ZifyBool Permutation Sorted.
 From NS Require Import Base.NoteSeq Gen.G07 Model.FqCommon Model.FqPerformance Model.FqSpec
   Proofs.FqCommon Proofs.FqPerformance Proofs.FqPerfRound
@@ -751,4 +762,563 @@ Section ScanW.
   Qed.
 End ScanW.
 
+Definition ystart (y : snote * Z) : Z := snd (fst (fst (fst y))).
+Definition ypitch (y : snote * Z) : Z := fst (fst (fst (fst y))).
+Definition yrank (y : snote * Z) : Z := snd y.
+Definition kle5 (a b : snote * Z) : Prop := ystart a < ystart b \/ (ystart a = ystart b /\ ypitch a <= ypitch b).
+(** order pairs of the decoded list: (start, pitch) order, ties in list order = rank order *)
+Definition RR (a b : snote * Z) : Prop := (kle5 a b -> yrank a < yrank b) /\ (~ kle5 a b -> yrank b < yrank a).
+
+Lemma key_le_trans a s q s' q' : key_le a s q = true -> key_le (Some (s, q)) s' q' = true -> key_le a s' q' = true.
+Proof. unfold key_le. destruct a as [[s0 q0]|]; [lia|reflexivity]. Qed.
+
+Section CanonW.
+  Variables nb ms start dv : Z.
+  Hypothesis Hms : 1 <= ms.
+  Hypothesis Hnb : nb = 0 \/ 1 <= nb.
+
+  Definition on_e4 (x : ent) : PC.med := PC.mkMed (e_s x + start) false (e_p x) (e_r x) (e_v x).
+  Definition on5 (y : snote * Z) : PC.med := let '((q, s, e, v), k) := y in PC.mkMed s false q k v.
+  Definition off5 (y : snote * Z) : PC.med := let '((q, s, e, v), k) := y in PC.mkMed e true q k v.
+
+  (** ** the timed tuples are the onsets and offsets of the decoded notes *)
+  Lemma Tm4_perm cf : cs_open cf = [] -> forall es c vel op cnt,
+    pf_canon_scan_w nb ms es c = Some cf -> cs_open c = map pq4 op -> Inv c op cnt ->
+    Permutation (map on_e4 op ++ Tm4 nb start es (cs_step c) vel op cnt)
+                (map on5 (dec4 nb start es (cs_step c) vel op cnt)
+                 ++ map off5 (dec4 nb start es (cs_step c) vel op cnt)).
+  Proof.
+    intros Hfin.
+    apply (scan_rect_w nb ms cf (fun es c vel op cnt =>
+      Permutation (map on_e4 op ++ Tm4 nb start es (cs_step c) vel op cnt)
+                  (map on5 (dec4 nb start es (cs_step c) vel op cnt)
+                   ++ map off5 (dec4 nb start es (cs_step c) vel op cnt)))).
+    - intros vel op cnt Hop _. rewrite Hfin in Hop. destruct op; [|discriminate]. cbn. constructor.
+    - intros v r c vel op cnt Hop HI _ _ c' op' _ _ _ IH. subst c' op'. cbn [cs_step] in IH.
+      rewrite Tm4_on, dec4_on. rewrite map_app, <- app_assoc in IH. exact IH.
+    - intros v r c vel op cnt s w k l1 l2 Hop HI Hsplit Hl1 Htk _ _ _ Hs c' _ _ IH. subst c'. cbn [cs_step] in IH.
+      rewrite Tm4_off, dec4_off, Htk. replace (cs_step c =? s) with false by lia.
+      cbn [map app on5 off5].
+      assert (Hp : Permutation (map on_e4 op) (on_e4 ((v, s, w), k) :: map on_e4 (l1 ++ l2))).
+      { rewrite Hsplit, !map_app. cbn [map]. symmetry. apply Permutation_middle. }
+      rewrite Hp. cbn [app].
+      change (on_e4 ((v, s, w), k)) with (PC.mkMed (s + start) false v k w).
+      apply perm_skip.
+      etransitivity; [symmetry; apply Permutation_middle|].
+      etransitivity; [|apply Permutation_middle]. apply perm_skip. exact IH.
+    - intros v r c vel op cnt Hop HI _ _ _ c' _ _ IH. subst c'. cbn [cs_step] in IH.
+      rewrite Tm4_shift, dec4_shift. exact IH.
+    - intros v r c vel op cnt Hop HI _ _ _ _ c' _ _ IH. subst c'. cbn [cs_step] in IH.
+      rewrite Tm4_vel, dec4_vel. exact IH.
+  Qed.
+
+  (** ** where the decoded notes come from: an open entry, or a later NOTE_ON *)
+  Definition origin (c : pf_cst) (op : list ent) (cnt : Z) (y : snote * Z) : Prop :=
+    (exists x, In x op /\ e_p x = ypitch y /\ e_s x + start = ystart y /\ e_r x = yrank y) \/
+    (cnt <= yrank y /\ cs_step c + start <= ystart y).
+
+  Lemma dec4_origin cf : forall es c vel op cnt,
+    pf_canon_scan_w nb ms es c = Some cf -> cs_open c = map pq4 op -> Inv c op cnt ->
+    forall y, In y (dec4 nb start es (cs_step c) vel op cnt) -> origin c op cnt y.
+  Proof.
+    apply (scan_rect_w nb ms cf (fun es c vel op cnt =>
+      forall y, In y (dec4 nb start es (cs_step c) vel op cnt) -> origin c op cnt y)).
+    - intros vel op cnt _ _ y Hy. cbn [dec4] in Hy. apply in_map_iff in Hy.
+      destruct Hy as ([[[q s] w] k] & <- & Hx). apply filter_In in Hx. destruct Hx as (Hx & _).
+      left. exists ((q, s, w), k). repeat split; auto.
+    - intros v r c vel op cnt Hop HI _ _ c' op' _ _ _ IH y. subst c' op'. cbn [cs_step] in IH.
+      rewrite dec4_on. intros Hy. destruct (IH y Hy) as [(x & Hx & H1 & H2 & H3)|(H1 & H2)].
+      + apply in_app_or in Hx. destruct Hx as [Hx|[<-|[]]].
+        * left. exists x. auto.
+        * right. cbn [e_r e_s fst snd] in *. lia.
+      + right. cbn [cs_step] in H2. lia.
+    - intros v r c vel op cnt s w k l1 l2 Hop HI Hsplit Hl1 Htk _ _ _ Hs c' _ _ IH y. subst c'. cbn [cs_step] in IH.
+      rewrite dec4_off, Htk. replace (cs_step c =? s) with false by lia. intros [<-|Hy].
+      + left. exists ((v, s, w), k). split; [rewrite Hsplit; apply in_or_app; right; now left|].
+        repeat split.
+      + destruct (IH y Hy) as [(x & Hx & H1)|H1]; [left|right; exact H1].
+        exists x. split; [|exact H1]. rewrite Hsplit. apply in_app_or in Hx. apply in_or_app.
+        destruct Hx; [now left|right; now right].
+    - intros v r c vel op cnt Hop HI _ Hv _ c' _ _ IH y. subst c'. cbn [cs_step] in IH.
+      rewrite dec4_shift. intros Hy. destruct (IH y Hy) as [H1|(H1 & H2)]; [now left|right].
+      cbn [cs_step] in H2. lia.
+    - intros v r c vel op cnt Hop HI _ _ _ _ c' _ _ IH y. subst c'. cbn [cs_step] in IH.
+      rewrite dec4_vel. intros Hy. exact (IH y Hy).
+  Qed.
+
+  Lemma dec4_starts cf : forall es c vel op cnt,
+    pf_canon_scan_w nb ms es c = Some cf -> cs_open c = map pq4 op -> Inv c op cnt ->
+    forall y, In y (dec4 nb start es (cs_step c) vel op cnt) -> start <= ystart y.
+  Proof.
+    intros es c vel op cnt Hs Hop HI y Hy.
+    destruct (dec4_origin cf es c vel op cnt Hs Hop HI y Hy) as [(x & Hx & _ & H2 & _)|(_ & H2)].
+    - destruct HI as (_ & Hf & _). rewrite Forall_forall in Hf. destruct (Hf x Hx) as (_ & H0 & _). lia.
+    - destruct HI as (_ & _ & H0). lia.
+  Qed.
+
+  (** ** the decoded list, pairwise: creation order refines the (start, pitch) order like the ranks *)
+  Lemma dec4_pairs cf : forall es c vel op cnt,
+    pf_canon_scan_w nb ms es c = Some cf -> cs_open c = map pq4 op -> Inv c op cnt ->
+    ForallOrdPairs RR (dec4 nb start es (cs_step c) vel op cnt).
+  Proof.
+    apply (scan_rect_w nb ms cf (fun es c vel op cnt =>
+      ForallOrdPairs RR (dec4 nb start es (cs_step c) vel op cnt))).
+    - intros vel op cnt _ (Hso & _ & _). cbn [dec4].
+      induction op as [|[[[q s] w] k] op IHo]; cbn [filter map]; [constructor|].
+      apply StronglySorted_inv in Hso. destruct Hso as (Hso & Hf).
+      destruct (negb (cs_step cf =? s)); [|now apply IHo]. cbn [map]. constructor; [|now apply IHo].
+      apply Forall_forall. intros y Hy. apply in_map_iff in Hy.
+      destruct Hy as ([[[q' s'] w'] k'] & <- & Hx). apply filter_In in Hx. destruct Hx as (Hx & _).
+      rewrite Forall_forall in Hf. specialize (Hf _ Hx). unfold oord, kle in Hf. cbn [e_r e_s e_p fst snd] in Hf.
+      unfold RR, kle5, ystart, ypitch, yrank. cbn [fst snd]. lia.
+    - intros v r c vel op cnt Hop HI _ _ c' op' _ _ _ IH. subst c' op'. cbn [cs_step] in IH.
+      rewrite dec4_on. exact IH.
+    - intros v r c vel op cnt s w k l1 l2 Hop HI Hsplit Hl1 Htk _ _ _ Hs c' Hs' HI' IH. cbn [cs_step] in IH.
+      rewrite dec4_off, Htk. replace (cs_step c =? s) with false by lia.
+      constructor; [|exact IH].
+      apply Forall_forall. intros y Hy.
+      pose proof (dec4_origin cf r c' vel (l1 ++ l2) cnt Hs' eq_refl HI' y Hy) as Ho.
+      destruct HI as (Hso & Hf & _). rewrite Hsplit in Hso.
+      destruct (StronglySorted_app_inv _ _ _ Hso) as (_ & Hs2 & Hcr).
+      apply StronglySorted_inv in Hs2. destruct Hs2 as (_ & Hf2). rewrite Forall_forall in Hf2.
+      rewrite Forall_forall in Hf.
+      assert (Hk : k < cnt).
+      { destruct (Hf ((v, s, w), k)) as (H & _); [rewrite Hsplit; apply in_or_app; right; now left|exact H]. }
+      unfold RR, kle5, ystart, ypitch, yrank. cbn [fst snd].
+      destruct Ho as [(x & Hx & H1 & H2 & H3)|(H1 & H2)].
+      + unfold ystart, ypitch, yrank in H1, H2, H3. apply in_app_or in Hx. destruct Hx as [Hx|Hx].
+        * pose proof (Hcr x _ Hx (or_introl eq_refl)) as Hox. pose proof (Hl1 x Hx) as Hne.
+          unfold oord, kle in Hox. cbn [e_r e_s e_p fst snd] in Hox. lia.
+        * pose proof (Hf2 x Hx) as Hox. unfold oord, kle in Hox. cbn [e_r e_s e_p fst snd] in Hox. lia.
+      + unfold ystart, yrank in H1, H2. subst c'. cbn [cs_step] in H2. lia.
+    - intros v r c vel op cnt Hop HI _ _ _ c' _ _ IH. subst c'. cbn [cs_step] in IH. rewrite dec4_shift. exact IH.
+    - intros v r c vel op cnt Hop HI _ _ _ _ c' _ _ IH. subst c'. cbn [cs_step] in IH. rewrite dec4_vel. exact IH.
+  Qed.
+
+  (** ** the timed tuples are strictly sorted by (step, rank) *)
+  Definition lowb4 (c : pf_cst) (op : list ent) (cnt : Z) (t : PC.med) : Prop :=
+    cs_step c + start < PC.m_step t \/
+    (cs_step c + start = PC.m_step t /\
+     (PC.m_off t = true -> cs_onp c = None /\
+        exists x, In x op /\ e_r x = PC.m_ns t /\ key_le (cs_offkey c) (e_s x) (e_p x) = true) /\
+     (PC.m_off t = false -> cnt <= PC.m_ns t)).
+
+  Lemma Tm4_low cf : forall es c vel op cnt,
+    pf_canon_scan_w nb ms es c = Some cf -> cs_open c = map pq4 op -> Inv c op cnt ->
+    forall t, In t (Tm4 nb start es (cs_step c) vel op cnt) -> lowb4 c op cnt t.
+  Proof.
+    apply (scan_rect_w nb ms cf (fun es c vel op cnt =>
+      forall t, In t (Tm4 nb start es (cs_step c) vel op cnt) -> lowb4 c op cnt t)).
+    - intros vel op cnt _ _ t [].
+    - intros v r c vel op cnt Hop HI _ _ c' op' _ _ _ IH t. subst c' op'. cbn [cs_step] in IH.
+      rewrite Tm4_on. intros [<-|Ht].
+      + right. cbn [PC.m_step PC.m_off PC.m_ns]. split; [reflexivity|]. split; [discriminate|]. intros _. lia.
+      + specialize (IH t Ht). unfold lowb4 in *. cbn [cs_step cs_onp cs_offkey] in IH.
+        destruct IH as [IH|(E & Hoff & Hon)]; [now left|right]. split; [exact E|]. split.
+        * intros Ho. destruct (Hoff Ho) as (Hd & _). discriminate.
+        * intros Ho. specialize (Hon Ho). lia.
+    - intros v r c vel op cnt s w k l1 l2 Hop HI Hsplit Hl1 Htk _ Honp Hkey Hs c' _ _ IH t. subst c'.
+      cbn [cs_step] in IH. rewrite Tm4_off, Htk. intros [<-|Ht].
+      + right. cbn [PC.m_step PC.m_off PC.m_ns]. split; [reflexivity|]. split; [|discriminate].
+        intros _. split; [exact Honp|]. exists ((v, s, w), k).
+        split; [rewrite Hsplit; apply in_or_app; right; now left|]. split; [reflexivity|exact Hkey].
+      + specialize (IH t Ht). unfold lowb4 in *. cbn [cs_step cs_onp cs_offkey] in IH.
+        destruct IH as [IH|(E & Hoff & Hon)]; [now left|right]. split; [exact E|]. split; [|exact Hon].
+        intros Ho. destruct (Hoff Ho) as (_ & x & Hx & Hr & Hk). split; [exact Honp|]. exists x.
+        split; [|split; [exact Hr|eapply key_le_trans; eassumption]].
+        rewrite Hsplit. apply in_app_or in Hx. apply in_or_app. destruct Hx; [now left|right; now right].
+    - intros v r c vel op cnt Hop HI _ Hv _ c' _ _ IH t. subst c'. cbn [cs_step] in IH.
+      rewrite Tm4_shift. intros Ht. specialize (IH t Ht). unfold lowb4 in *. cbn [cs_step] in IH. left. lia.
+    - intros v r c vel op cnt Hop HI _ _ _ _ c' _ _ IH t. subst c'. cbn [cs_step] in IH.
+      rewrite Tm4_vel. intros Ht. exact (IH t Ht).
+  Qed.
+
+  Lemma Tm4_sorted cf : forall es c vel op cnt,
+    pf_canon_scan_w nb ms es c = Some cf -> cs_open c = map pq4 op -> Inv c op cnt ->
+    StronglySorted PC.mlt (Tm4 nb start es (cs_step c) vel op cnt).
+  Proof.
+    apply (scan_rect_w nb ms cf (fun es c vel op cnt =>
+      StronglySorted PC.mlt (Tm4 nb start es (cs_step c) vel op cnt))).
+    - intros; constructor.
+    - intros v r c vel op cnt Hop HI _ _ c' op' Hs' Hop' HI' IH. cbn [cs_step] in IH.
+      rewrite Tm4_on. constructor; [exact IH|].
+      apply Forall_forall. intros t Ht.
+      pose proof (Tm4_low cf r c' vel op' (cnt + 1) Hs' Hop' HI' t Ht) as Hl.
+      unfold lowb4 in Hl. subst c'. cbn [cs_step cs_onp cs_offkey] in Hl.
+      unfold PC.mlt. cbn [PC.m_step PC.m_ns PC.m_pitch].
+      destruct Hl as [Hl|(E & Hoff & Hon)]; [now left|right]. split; [exact E|].
+      destruct (PC.m_off t) eqn:Eo.
+      + destruct (Hoff eq_refl) as (Hd & _). discriminate.
+      + specialize (Hon eq_refl). left. lia.
+    - intros v r c vel op cnt s w k l1 l2 Hop HI Hsplit Hl1 Htk _ Honp Hkey Hs c' Hs' HI' IH. cbn [cs_step] in IH.
+      rewrite Tm4_off, Htk. constructor; [exact IH|].
+      apply Forall_forall. intros t Ht.
+      pose proof (Tm4_low cf r c' vel (l1 ++ l2) cnt Hs' eq_refl HI' t Ht) as Hl.
+      unfold lowb4 in Hl. subst c'. cbn [cs_step cs_onp cs_offkey] in Hl.
+      unfold PC.mlt. cbn [PC.m_step PC.m_ns PC.m_pitch].
+      destruct Hl as [Hl|(E & Hoff & Hon)]; [now left|right]. split; [exact E|]. left.
+      destruct HI as (Hso & Hf & _). rewrite Hsplit in Hso.
+      destruct (StronglySorted_app_inv _ _ _ Hso) as (_ & Hs2 & Hcr).
+      apply StronglySorted_inv in Hs2. destruct Hs2 as (_ & Hf2). rewrite Forall_forall in Hf2.
+      rewrite Forall_forall in Hf.
+      destruct (PC.m_off t) eqn:Eo.
+      + destruct (Hoff eq_refl) as (_ & x & Hx & Hr & Hk). rewrite <- Hr. unfold key_le in Hk.
+        apply in_app_or in Hx. destruct Hx as [Hx|Hx].
+        * pose proof (Hcr x _ Hx (or_introl eq_refl)) as Hox. pose proof (Hl1 x Hx) as Hne.
+          unfold oord, kle in Hox. cbn [e_r e_s e_p fst snd] in Hox. lia.
+        * pose proof (Hf2 x Hx) as Hox. unfold oord in Hox. cbn [e_r snd] in Hox. lia.
+      + specialize (Hon eq_refl).
+        destruct (Hf ((v, s, w), k)) as (H & _); [rewrite Hsplit; apply in_or_app; right; now left|].
+        cbn [e_r snd] in H. lia.
+    - intros v r c vel op cnt Hop HI _ _ _ c' _ _ IH. subst c'. cbn [cs_step] in IH. rewrite Tm4_shift. exact IH.
+    - intros v r c vel op cnt Hop HI _ _ _ _ c' _ _ IH. subst c'. cbn [cs_step] in IH. rewrite Tm4_vel. exact IH.
+  Qed.
+
+  (** ** running the encoder loop over the timed tuples reproduces the list *)
+  Lemma Tm4_loop cf : (cs_prev cf = PStart \/ cs_prev cf = POff) -> forall es c vel op cnt,
+    pf_canon_scan_w nb ms es c = Some cf -> cs_open c = map pq4 op -> Inv c op cnt ->
+    vel_inv nb dv (cs_vbin c) vel -> forall cur vbin Psh Pv,
+    PC.pend_sh ms start c cur Psh -> PC.pend_v nb c vbin Pv ->
+    PC.mloop nb ms (Tm4 nb start es (cs_step c) vel op cnt) cur vbin = Psh ++ Pv ++ es.
+  Proof.
+    intros Hfin.
+    apply (scan_rect_w nb ms cf (fun es c vel op cnt =>
+      vel_inv nb dv (cs_vbin c) vel -> forall cur vbin Psh Pv,
+      PC.pend_sh ms start c cur Psh -> PC.pend_v nb c vbin Pv ->
+      PC.mloop nb ms (Tm4 nb start es (cs_step c) vel op cnt) cur vbin = Psh ++ Pv ++ es)).
+    - intros vel op cnt _ _ _ cur vbin Psh Pv Hsh Hpv.
+      assert (Psh = []) as ->.
+      { destruct Hsh as [(-> & _)|(k & u & _ & _ & _ & _ & [H|H])]; [reflexivity| |];
+          destruct Hfin as [H'|H']; congruence. }
+      assert (Pv = []) as ->.
+      { destruct Hpv as [(-> & _)|(_ & _ & H & _)]; [reflexivity|]. destruct Hfin as [H'|H']; congruence. }
+      reflexivity.
+    - intros v r c vel op cnt Hop HI Hvb Honp c' op' _ _ _ IH Hvi cur vbin Psh Pv Hsh Hpv.
+      rewrite Tm4_on. cbn [PC.mloop PC.m_step PC.m_off PC.m_pitch PC.m_vel].
+      destruct (PC.pend_sh_emit ms start Hms _ _ _ Hsh) as (-> & ->).
+      cbn [negb]. rewrite andb_true_r.
+      assert (Hsh' : PC.pend_sh ms start c' (cs_step c + start) []).
+      { left. subst c'. cbn [cs_step cs_prev]. repeat split; auto. intros u; discriminate. }
+      assert (Hpv' : PC.pend_v nb c' (cs_vbin c) []).
+      { left. subst c'. cbn [cs_vbin cs_prev]. repeat split; auto. discriminate. }
+      pose proof (IH Hvi (cs_step c + start) (cs_vbin c) [] [] Hsh' Hpv') as IH'. cbn [app] in IH'.
+      subst c' op'. cbn [cs_step] in IH'.
+      destruct Hvi as [(Hz & Hvd)|(Hnz & Hvv)].
+      + replace (nb =? 0) with true by lia. cbn [negb andb].
+        destruct Hpv as [(-> & -> & _)|(_ & _ & _ & Hc)]; [|contradiction].
+        rewrite IH'. reflexivity.
+      + assert (Hvel : vel = bin_to_vel (cs_vbin c) nb) by (destruct Hvv as [Hvv|Hvv]; [now apply Hvb in Hvv|exact Hvv]).
+        rewrite Hvel, PC.vel_bin_roundtrip by lia. rewrite <- Hvel.
+        replace (nb =? 0) with false by lia. cbn [negb andb].
+        destruct Hpv as [(-> & -> & _)|(-> & Hne & _ & _)].
+        * rewrite Z.eqb_refl. cbn [negb]. rewrite IH'. reflexivity.
+        * replace (cs_vbin c =? vbin) with false by lia. cbn [negb]. rewrite IH'. reflexivity.
+    - intros v r c vel op cnt s w k l1 l2 Hop HI Hsplit Hl1 Htk Hpvel Honp Hkey Hlt c' _ _ IH Hvi cur vbin Psh Pv Hsh Hpv.
+      rewrite Tm4_off, Htk. cbn [PC.mloop PC.m_step PC.m_off PC.m_pitch PC.m_vel].
+      destruct (PC.pend_sh_emit ms start Hms _ _ _ Hsh) as (-> & ->).
+      cbn [negb]. rewrite andb_false_r. cbn [andb].
+      destruct Hpv as [(-> & -> & _)|(_ & _ & Hc & _)]; [|contradiction].
+      assert (Hsh' : PC.pend_sh ms start c' (cs_step c + start) []).
+      { left. subst c'. cbn [cs_step cs_prev]. repeat split; auto. intros u; discriminate. }
+      assert (Hpv' : PC.pend_v nb c' (cs_vbin c) []).
+      { left. subst c'. cbn [cs_vbin cs_prev]. repeat split; auto. discriminate. }
+      pose proof (IH Hvi (cs_step c + start) (cs_vbin c) [] [] Hsh' Hpv') as IH'. cbn [app] in IH'.
+      subst c'. cbn [cs_step] in IH'. rewrite IH'. reflexivity.
+    - intros v r c vel op cnt Hop HI Hpvel Hv Hu c' _ _ IH Hvi cur vbin Psh Pv Hsh Hpv.
+      rewrite Tm4_shift.
+      destruct Hpv as [(-> & -> & _)|(_ & _ & Hc & _)]; [|contradiction].
+      assert (Hsh' : PC.pend_sh ms start c' cur (Psh ++ [(EV_TIME_SHIFT, v)])).
+      { right. subst c'. cbn [cs_step cs_prev].
+        destruct Hsh as [(-> & -> & _)|(k & u & Hk & Hu' & -> & E & [Hp|Hp])]; [| |contradiction].
+        * exists 0, v. repeat split; auto; try lia.
+        * specialize (Hu _ Hp). subst u. exists (k + 1), v. repeat split; auto; try lia.
+          rewrite PC.zrepeat_snoc by lia. reflexivity. }
+      assert (Hpv' : PC.pend_v nb c' (cs_vbin c) []).
+      { left. subst c'. cbn [cs_vbin cs_prev]. repeat split; auto. discriminate. }
+      pose proof (IH Hvi cur (cs_vbin c) _ [] Hsh' Hpv') as IH'.
+      subst c'. cbn [cs_step] in IH'. rewrite IH'. rewrite <- app_assoc. reflexivity.
+    - intros v r c vel op cnt Hop HI Hnz Hpvel Hv Hne c' _ _ IH Hvi cur vbin Psh Pv Hsh Hpv.
+      rewrite Tm4_vel.
+      destruct Hpv as [(-> & -> & _)|(_ & _ & Hc & _)]; [|contradiction].
+      assert (Hvi' : vel_inv nb dv (cs_vbin c') (bin_to_vel v nb)).
+      { subst c'. cbn [cs_vbin]. right. split; [exact Hnz|now right]. }
+      assert (Hsh' : PC.pend_sh ms start c' cur Psh).
+      { subst c'. destruct Hsh as [(-> & -> & _)|(k & u & Hk & Hu' & -> & E & _)].
+        * left. cbn [cs_step cs_prev]. repeat split; auto. intros u; discriminate.
+        * right. exists k, u. cbn [cs_step cs_prev]. repeat split; auto; lia. }
+      assert (Hpv' : PC.pend_v nb c' (cs_vbin c) [(EV_VELOCITY, v)]).
+      { right. subst c'. cbn [cs_vbin cs_prev]. repeat split; auto. }
+      pose proof (IH Hvi' cur (cs_vbin c) Psh _ Hsh' Hpv') as IH'.
+      subst c'. cbn [cs_step] in IH'. rewrite IH'. reflexivity.
+  Qed.
+End CanonW.
+
+(** * a stable insertion sort sorts by any strict order that refines the key order in list order *)
+Section Stable.
+  Context {A : Type} (le : A -> A -> bool) (lt' : A -> A -> Prop).
+  Hypothesis le_total : forall a b, le a b = true \/ le b a = true.
+  Hypothesis le_trans : forall a b c, le a b = true -> le b c = true -> le a c = true.
+  Hypothesis lt_asym : forall a b, lt' a b -> lt' b a -> False.
+
+  Definition refines (a b : A) : Prop := (le a b = true -> lt' a b) /\ (le a b = false -> lt' b a).
+
+  Lemma insert_stable x : forall S, StronglySorted lt' S ->
+    (forall y, In y S -> refines x y) -> (forall a b, In a S -> In b S -> lt' a b -> le a b = true) ->
+    StronglySorted lt' (insert le x S).
+  Proof.
+    induction S as [|y S IH]; intros Hs Hx Hg; cbn [insert]; [constructor; constructor|].
+    pose proof Hs as Hs0. apply StronglySorted_inv in Hs. destruct Hs as (Hs & Hf).
+    destruct (le x y) eqn:E.
+    - constructor; [exact Hs0|]. constructor; [apply (Hx y); [now left|exact E]|].
+      rewrite Forall_forall in *. intros z Hz. apply (Hx z (or_intror Hz)).
+      eapply le_trans; [exact E|]. apply Hg; [now left|now right|now apply Hf].
+    - constructor.
+      + apply IH; [exact Hs|intros; apply Hx; now right|intros; apply Hg; auto; now right].
+      + eapply Permutation_Forall; [symmetry; apply insert_perm|].
+        constructor; [apply (Hx y); [now left|exact E]|exact Hf].
+  Qed.
+
+  Lemma isort_stable : forall l, ForallOrdPairs refines l ->
+    StronglySorted lt' (isort le l) /\ (forall a b, In a l -> In b l -> lt' a b -> le a b = true).
+  Proof.
+    induction l as [|x r IH]; intros H; cbn [isort].
+    - split; [constructor|intros a b []].
+    - inversion H as [|? ? Hx Hr]; subst. destruct (IH Hr) as (Hs & Hg). rewrite Forall_forall in Hx.
+      assert (Hg' : forall a b, In a (x :: r) -> In b (x :: r) -> lt' a b -> le a b = true).
+      { intros a b [<-|Ha] [<-|Hb] Hlt.
+        - exfalso. eapply lt_asym; eassumption.
+        - destruct (Hx b Hb) as (_ & H2). destruct (le x b) eqn:E; [reflexivity|].
+          exfalso. eapply lt_asym; [exact Hlt|now apply H2].
+        - destruct (Hx a Ha) as (H1 & _). destruct (le x a) eqn:E.
+          + exfalso. eapply lt_asym; [exact Hlt|now apply H1].
+          + destruct (le_total a x) as [H'|H']; [exact H'|congruence].
+        - now apply Hg. }
+      split; [|exact Hg'].
+      apply insert_stable; [exact Hs| |].
+      + intros y Hy. apply Hx. now apply isort_In in Hy.
+      + intros a b Ha Hb. apply Hg; now apply (isort_In le r).
+  Qed.
+End Stable.
+
+Lemma FOP_map_impl {A B} (f : A -> B) (R : A -> A -> Prop) (R' : B -> B -> Prop) l :
+  (forall a b, R a b -> R' (f a) (f b)) -> ForallOrdPairs R l -> ForallOrdPairs R' (map f l).
+Proof.
+  intros HR. induction 1 as [|a l Ha Hl IH]; cbn [map]; constructor; [|exact IH].
+  rewrite Forall_forall in *. intros y Hy. apply in_map_iff in Hy. destruct Hy as (z & <- & Hz). auto.
+Qed.
+
+(** * sorting and the tuple list commute with maps that keep what they look at *)
+Lemma insert_map {A B} (f : A -> B) (le : B -> B -> bool) (le' : A -> A -> bool) x l :
+  (forall a b, le (f a) (f b) = le' a b) -> insert le (f x) (map f l) = map f (insert le' x l).
+Proof.
+  intros H. induction l as [|y l IH]; cbn [map insert]; [reflexivity|].
+  rewrite H. destruct (le' x y); cbn [map]; [reflexivity|]. now rewrite IH.
+Qed.
+
+Lemma isort_map {A B} (f : A -> B) (le : B -> B -> bool) (le' : A -> A -> bool) l :
+  (forall a b, le (f a) (f b) = le' a b) -> isort le (map f l) = map f (isort le' l).
+Proof.
+  intros H. induction l as [|x l IH]; cbn [map isort]; [reflexivity|]. rewrite IH. now apply insert_map.
+Qed.
+
+Lemma filter_map_comm {A B} (f : A -> B) (g : B -> bool) (g' : A -> bool) l :
+  (forall x, g (f x) = g' x) -> filter g (map f l) = map f (filter g' l).
+Proof.
+  intros H. induction l as [|x l IH]; cbn [map filter]; [reflexivity|].
+  rewrite H. destruct (g' x); cbn [map]; now rewrite IH.
+Qed.
+
+Lemma enum_from_map {A B} (f : A -> B) l : forall k,
+  enum_from k (map f l) = map (fun x => (fst x, f (snd x))) (enum_from k l).
+Proof. induction l as [|x l IH]; intros k; cbn [map enum_from fst snd]; [reflexivity|]. now rewrite IH. Qed.
+
+Definition tmap (f : note -> note) (t : tev) : tev := mkTev (te_step t) (te_idx t) (te_off t) (f (te_note t)).
+
+Lemma pf_note_events_map f l :
+  (forall n, n_qstart (f n) = n_qstart n) -> (forall n, n_qend (f n) = n_qend n) ->
+  pf_note_events (map f l) = map (tmap f) (pf_note_events l).
+Proof.
+  intros Hs He. unfold pf_note_events. rewrite enum_from_map, !map_map.
+  rewrite <- (isort_map (tmap f) tev_le tev_le) by reflexivity.
+  rewrite map_app, !map_map. f_equal. f_equal; apply map_ext; intros [k n]; unfold tmap; cbn; now rewrite ?Hs, ?He.
+Qed.
+
+Lemma pfq_map f p l :
+  (forall n, n_pitch (f n) = n_pitch n) -> (forall n, n_vel (f n) = n_vel n) ->
+  (forall n, n_start (f n) = n_start n) -> (forall n, n_instr (f n) = n_instr n) ->
+  (forall n, n_qstart (f n) = n_qstart n) -> (forall n, n_qend (f n) = n_qend n) ->
+  pf_from_quantized p (map f l) = pf_from_quantized p l.
+Proof.
+  intros Hp Hv Hst Hi Hs He. unfold pf_from_quantized, pf_sorted_notes.
+  rewrite (filter_map_comm f _ (pf_keep (fp_start p) (fp_instrument p)))
+    by (intros x; unfold pf_keep; now rewrite Hs, Hi).
+  rewrite (isort_map f pf_le pf_le) by (intros a b; unfold pf_le; now rewrite !Hst, !Hp).
+  rewrite pf_note_events_map by assumption.
+  rewrite !PC.pf_loop_mloop, map_map. f_equal. apply map_ext. intros t.
+  unfold PC.med_of, tmap. cbn [te_step te_off te_note]. now rewrite Hp, Hst, Hv.
+Qed.
+
+Definition clr (n : note) : note :=
+  mkNote (n_pitch n) (n_vel n) (n_start n) (n_end n) (n_instr n) (n_prog n) (n_drum n) (n_qstart n) (n_qend n) 0.
+
+Definition tonote4 (i pr : Z) (drum : bool) (y : snote * Z) : note :=
+  let '((q, s, e, v), k) := y in mkNote q v s e i pr drum s e k.
+
+(** * the encoder's tuples, with the rank kept in [n_rest] *)
+Definition med4_of (t : tev) : PC.med :=
+  PC.mkMed (te_step t) (te_off t) (n_pitch (te_note t)) (n_rest (te_note t)) (n_vel (te_note t)).
+
+Lemma pf_loop_mloop4 nb ms : forall tes cur vbin,
+  pf_loop nb ms tes cur vbin = PC.mloop nb ms (map med4_of tes) cur vbin.
+Proof.
+  induction tes as [|t r IH]; intros cur vbin; cbn [pf_loop PC.mloop map]; [reflexivity|].
+  cbn [med4_of PC.m_step PC.m_off PC.m_pitch PC.m_vel]. now rewrite IH.
+Qed.
+
+Definition on_m4 (n : note) : PC.med := PC.mkMed (n_qstart n) false (n_pitch n) (n_rest n) (n_vel n).
+Definition off_m4 (n : note) : PC.med := PC.mkMed (n_qend n) true (n_pitch n) (n_rest n) (n_vel n).
+
+Lemma med4_note_events_perm sorted :
+  Permutation (map med4_of (pf_note_events sorted)) (map on_m4 sorted ++ map off_m4 sorted).
+Proof.
+  unfold pf_note_events. rewrite (Permutation_map med4_of (isort_perm tev_le _)).
+  rewrite map_app, !map_map.
+  rewrite <- (map_snd_enum on_m4 sorted 0), <- (map_snd_enum off_m4 sorted 0). reflexivity.
+Qed.
+
+Lemma med4_note_events_sorted sorted : StronglySorted (fun a b => n_rest a < n_rest b) sorted ->
+  StronglySorted PC.mle (map med4_of (pf_note_events sorted)).
+Proof.
+  intros Hs. eapply PC.ssorted_map; [|apply note_events_sorted].
+  intros a b Ha Hb Hle.
+  apply In_note_events in Ha. destruct Ha as (ia & na & Hia & Hna & Hca).
+  apply In_note_events in Hb. destruct Hb as (ib & nb' & Hib & Hnb & Hcb).
+  assert (Ea : te_idx a = ia /\ te_note a = na) by (destruct Hca; subst a; auto).
+  assert (Eb : te_idx b = ib /\ te_note b = nb') by (destruct Hcb; subst b; auto).
+  destruct Ea as (Ea1 & Ea2). destruct Eb as (Eb1 & Eb2).
+  unfold PC.mle, med4_of. cbn [PC.m_step PC.m_ns PC.m_pitch]. rewrite Ea2, Eb2.
+  unfold tev_le in Hle. rewrite Ea1, Eb1 in Hle.
+  destruct (Z.lt_trichotomy ia ib) as [Hlt|[Heq|Hgt]].
+  - assert (Hp : n_rest na < n_rest nb') by (eapply (PC.ssorted_nth _ _ Hs); [|exact Hna|exact Hnb]; lia). lia.
+  - assert (H : na = nb') by congruence. rewrite <- ?H. lia.
+  - lia.
+Qed.
+
+Theorem roundtrip_steps_perf_w : forall p dv i pr drum es,
+  1 <= fp_max_shift p -> (fp_bins p = 0 \/ 1 <= fp_bins p) ->
+  (match fp_instrument p with None => True | Some j => j = i end) ->
+  canonical_perf_w (fp_bins p) (fp_max_shift p) es = true ->
+  pf_from_quantized p (pf_rnotes p dv i pr drum es) = es.
+Proof.
+  intros p dv i pr drum es Hms Hnb Hinstr Hcan.
+  unfold canonical_perf_w in Hcan.
+  set (c0 := mkPfCst 0 [] 0 PStart None None) in *.
+  destruct (pf_canon_scan_w (fp_bins p) (fp_max_shift p) es c0) as [cf|] eqn:Hscan; [|discriminate].
+  apply andb_true_iff in Hcan. destruct Hcan as (Hopen & Hprev). apply PC.is_nil_true in Hopen.
+  assert (Hfin : cs_prev cf = PStart \/ cs_prev cf = POff) by (destruct (cs_prev cf); auto; discriminate).
+  set (nb := fp_bins p) in *. set (ms := fp_max_shift p) in *. set (start := fp_start p).
+  assert (Hop0 : cs_open c0 = map pq4 []) by reflexivity.
+  assert (HI0 : Inv c0 [] 0) by (repeat split; try constructor; cbn; lia).
+  set (D := dec4 nb start es (cs_step c0) dv [] 0).
+  set (notes := map (tonote4 i pr drum) D).
+  assert (Hren : pf_rnotes p dv i pr drum es = map clr notes).
+  { unfold pf_rnotes, pf_to_step_notes. fold nb start.
+    change (pf_decode nb start es 0 dv []) with (pf_decode nb start es (cs_step c0) dv (map fst (@nil ent))).
+    rewrite <- (dec4_strip nb start es (cs_step c0) dv [] 0). fold D.
+    unfold notes. rewrite !map_map. apply map_ext. intros [[[[q s] e] v] k]. reflexivity. }
+  rewrite Hren, pfq_map by reflexivity.
+  unfold pf_from_quantized. fold nb ms start.
+  assert (Hkeep : filter (pf_keep start (fp_instrument p)) notes = notes).
+  { apply PC.filter_all. intros n Hn. apply in_map_iff in Hn. destruct Hn as ([[[[q s] e] v] k] & <- & Hx).
+    pose proof (dec4_starts nb ms start cf es c0 dv [] 0 Hscan Hop0 HI0 _ Hx) as Hst.
+    unfold ystart in Hst. cbn [fst snd] in Hst.
+    unfold pf_keep, tonote4. cbn [n_qstart n_instr].
+    destruct (fp_instrument p) as [j|]; [subst j|]; lia. }
+  unfold pf_sorted_notes. rewrite Hkeep. rewrite pf_loop_mloop4.
+  assert (Hon : map on_m4 notes = map on5 D).
+  { unfold notes. rewrite map_map. apply map_ext. intros [[[[q s] e] v] k]. reflexivity. }
+  assert (Hoff : map off_m4 notes = map off5 D).
+  { unfold notes. rewrite map_map. apply map_ext. intros [[[[q s] e] v] k]. reflexivity. }
+  assert (Hsorted : StronglySorted (fun a b => n_rest a < n_rest b) (isort pf_le notes)).
+  { apply (isort_stable pf_le (fun a b => n_rest a < n_rest b) PC.pf_le_total PC.pf_le_trans).
+    - intros a b; lia.
+    - unfold notes. eapply FOP_map_impl; [|apply (dec4_pairs nb ms start cf es c0 dv [] 0 Hscan Hop0 HI0)].
+      intros [[[[q s] e] v] k] [[[[q' s'] e'] v'] k']. unfold RR, kle5, ystart, ypitch, yrank, refines, pf_le, tonote4.
+      cbn [fst snd n_start n_pitch n_rest]. lia. }
+  assert (HT : Tm4 nb start es (cs_step c0) dv [] 0 = map med4_of (pf_note_events (isort pf_le notes))).
+  { apply (PC.sorted_perm_unique PC.mlt PC.mle PC.mlt_mle_anti).
+    - now apply (Tm4_sorted nb ms start cf es c0 dv [] 0).
+    - now apply med4_note_events_sorted.
+    - rewrite med4_note_events_perm.
+      rewrite (Permutation_map on_m4 (isort_perm pf_le notes)), (Permutation_map off_m4 (isort_perm pf_le notes)).
+      rewrite Hon, Hoff.
+      pose proof (Tm4_perm nb ms start cf Hopen es c0 dv [] 0 Hscan Hop0 HI0) as Hp. cbn [map app] in Hp. exact Hp. }
+  rewrite <- HT.
+  pose proof (Tm4_loop nb ms start dv Hms Hnb cf Hfin es c0 dv [] 0 Hscan Hop0 HI0) as HL.
+  assert (Hvi : vel_inv nb dv (cs_vbin c0) dv).
+  { unfold vel_inv. cbn [cs_vbin c0]. destruct Hnb as [H|H]; [left; auto|right; split; [lia|now left]]. }
+  specialize (HL Hvi start 0 [] []). cbn [app] in HL. apply HL.
+  - left. cbn. repeat split; auto. intros u; discriminate.
+  - left. cbn. repeat split; auto. discriminate.
+Qed.
+
+Theorem roundtrip_extracted_perf_w : forall p dv i pr drum ns,
+  perf_input_ok_w p ns ->
+  (match fp_instrument p with None => True | Some j => j = i end) ->
+  let es := pf_from_quantized p ns in
+  pf_from_quantized p (pf_rnotes p dv i pr drum es) = es.
+Proof.
+  intros p dv i pr drum ns Hok Hi es. pose proof Hok as (Hms & Hnb & _).
+  apply roundtrip_steps_perf_w; auto. now apply extraction_canonical_perf_w.
+Qed.
+
 End PW.
+
+(** * the phase-4 statements *)
+Theorem roundtrip_steps_perf_w : forall p dv i pr drum es,
+  1 <= fp_max_shift p -> (fp_bins p = 0 \/ 1 <= fp_bins p) ->
+  (match fp_instrument p with None => True | Some j => j = i end) ->
+  canonical_perf_w (fp_bins p) (fp_max_shift p) es = true ->
+  pf_from_quantized p (pf_rnotes p dv i pr drum es) = es.
+Proof. exact PW.roundtrip_steps_perf_w. Qed.
+
+Theorem extraction_canonical_perf_w : forall p ns,
+  PW.perf_input_ok_w p ns ->
+  canonical_perf_w (fp_bins p) (fp_max_shift p) (pf_from_quantized p ns) = true.
+Proof. exact PW.extraction_canonical_perf_w. Qed.
+
+Theorem roundtrip_extracted_perf_w : forall p dv i pr drum ns,
+  PW.perf_input_ok_w p ns ->
+  (match fp_instrument p with None => True | Some j => j = i end) ->
+  let es := pf_from_quantized p ns in
+  pf_from_quantized p (pf_rnotes p dv i pr drum es) = es.
+Proof. exact PW.roundtrip_extracted_perf_w. Qed.
+
+Theorem canonical_perf_implies_w : forall nb ms es,
+  canonical_perf nb ms es = true -> canonical_perf_w nb ms es = true.
+Proof. exact PW.canonical_perf_implies_w. Qed.
+
+Theorem perf_nested_refuted : exists p dv i pr drum ns,
+  1 <= fp_max_shift p /\ (fp_bins p = 0 \/ 1 <= fp_bins p) /\
+  Forall (fun n => n_qstart n < n_qend n /\ MIN_MIDI_VELOCITY <= n_vel n) ns /\
+  PW.times_follow_steps (pf_selected p ns) /\
+  no_nested_same_pitch (pf_selected p ns) = false /\
+  canonical_perf_w (fp_bins p) (fp_max_shift p) (pf_from_quantized p ns) = false /\
+  pf_from_quantized p (pf_rnotes p dv i pr drum (pf_from_quantized p ns)) <> pf_from_quantized p ns.
+Proof. exact PW.perf_nested_refuted. Qed.
+
+(** a wide-canonical performance that is not strictly canonical (8 velocity bins, max_shift 3,
+    start_step 5, instrument 2): (a) two notes of pitch 60 start on step 5 with velocity bins 5 and 2 and
+    end on steps 8 and 12; (b) 60@5..12, 64@7..12, 60@8..14: the second 60 starts while the first
+    sounds and ends after it *)
+Example perf_wide_example :
+  let p := mkPfParams 5 8 3 (Some 2) in
+  let es := [(EV_VELOCITY, 5); (EV_NOTE_ON, 60); (EV_VELOCITY, 2); (EV_NOTE_ON, 60); (EV_TIME_SHIFT, 2);
+             (EV_NOTE_ON, 64); (EV_TIME_SHIFT, 1); (EV_NOTE_OFF, 60); (EV_NOTE_ON, 60);
+             (EV_TIME_SHIFT, 3); (EV_TIME_SHIFT, 1); (EV_NOTE_OFF, 60); (EV_NOTE_OFF, 64);
+             (EV_TIME_SHIFT, 2); (EV_NOTE_OFF, 60)] in
+  canonical_perf_w (fp_bins p) (fp_max_shift p) es = true /\
+  canonical_perf (fp_bins p) (fp_max_shift p) es = false /\
+  pf_to_step_notes p 100 es = [(60, 5, 8, 65); (60, 5, 12, 17); (64, 7, 12, 17); (60, 8, 14, 17)] /\
+  pf_from_quantized p (pf_rnotes p 100 2 0 false es) = es.
+Proof. vm_compute. repeat split; reflexivity. Qed.
